@@ -224,26 +224,28 @@ def queries(ctx):
                 timeout=1200, tiers=both))
     # --- Engine S: concurrent entry points of the LIFO based modules (llp: lifo_chain_sorted / lifo_merge_ring vs pop/steal and a
     #     second writer; ll: lifo chain vs pop/steal).  General C08 oracle in check(): one place per task, NULL terminated, drain.
-    CONC = {1: "fastpath_cas_fails_eq", 2: "fastpath_cas_fails_low", 3: "merge2_vs_steal2", 4: "single_writer_vs_steal", 5: "two_writers", 6: "distance_ring_vs_pops"}
+    CONC = {1: "fastpath_cas_fails_eq", 2: "fastpath_cas_fails_low", 3: "merge2_vs_steal2", 4: "single_writer_vs_steal", 5: "two_writers", 6: "distance_ring_vs_pops",
+            7: "fastpath_cas_fails_eq_lifo_ops", 8: "fastpath_cas_fails_low_lifo_ops", 9: "fastpath_cas_fails_push"}
+    NTASK = {1: 3, 2: 3, 3: 5, 4: 2, 5: 3, 6: 5, 7: 3, 8: 3, 9: 3}
+    # configuration fields no thread writes (no yield before their loads; a store to one is an INTERNAL failure of the query)
+    RO = ["parsec_execution_stream_s.0", "parsec_execution_stream_s.5", "parsec_execution_stream_s.8", "parsec_vp_s.2", "parsec_vp_s.6", "parsec_lifo_s.1"]
     def conc(mod, sc, R, tiers):
-        qs.append(Q("%s_conc_%s_r%d" % (mod, CONC[sc], R), [], defs=["SCEN=%d" % sc, "MOD_" + mod, "NES=2"], engine="S",
+        qs.append(Q("%s_conc_%s_r%d" % (mod, CONC[sc], R), [], defs=["SCEN=%d" % sc, "MOD_" + mod, "NES=2", "NT=%d" % NTASK[sc]], engine="S",
                     units=[UNIT[mod], "parsec/class/lifo.h", "parsec/class/list_item.h"], patches=[ES_PATCH],
-                    gen=lambda ctx, q, qdir, overlays: (_ov_inc(ctx, q, qdir, overlays), seqir(["hs_conc.c"], threads=["thread0", "thread1"], rounds=R, drain=True)(ctx, q, qdir, overlays))[-1],
-                    unwind=8, timeout=2400, slow=True, tiers=tiers,
+                    gen=lambda ctx, q, qdir, overlays: (_ov_inc(ctx, q, qdir, overlays), seqir(["hs_conc.c"], threads=["thread0", "thread1"], rounds=R, drain=True, ro_fields=RO, thread_unwind=2)(ctx, q, qdir, overlays))[-1],
+                    unwind=NTASK[sc] + 2, timeout=2400, slow=True, tiers=tiers,
                     info={"symbolic": ["schedule: every SC interleaving with <= %d scheduling slots per thread, completed by a deterministic drain" % R],
                           "enumerated": ["scenario %d (%s): initial queue contents, the two threads' calls and the priorities are fixed" % (sc, CONC[sc])],
                           "stubs": ["scheduler objects initialised field by field as the constructors do (no class system)"],
                           "bounds": {"rounds": R, "threads": 2},
                           "functions": ["sched_%s_schedule" % mod, "sched_%s_select" % mod] + (["lifo_chain_sorted", "lifo_merge_ring"] if mod == "llp" else ["parsec_lifo_chain"]) + ["parsec_lifo_pop"]}))
-    conc("llp", 1, 2, both)
-    conc("llp", 2, 2, th)
-    conc("llp", 1, 3, th)
-    conc("llp", 2, 3, th)
-    conc("llp", 3, 2, th)
-    conc("llp", 4, 2, th)
-    conc("llp", 5, 2, th)
-    conc("ll", 6, 2, th)
-    conc("ll", 5, 2, th)
+    conc("llp", 9, 1, both)          # smallest interference (a push) that makes the fast-path CAS fail; quick tier
+    # R = 1 slot per thread + deterministic drain: "T0 runs a prefix, T1 runs a prefix, then both complete".  R = 2 did not get
+    # through CBMC's symbolic execution in 17 CPU-minutes for lifo_chain_sorted (42 yield points, 3 nested retry loops).
+    for sc in (7, 8, 1, 2, 5, 3, 4):
+        conc("llp", sc, 1, th)
+    conc("ll", 6, 1, th)
+    conc("ll", 5, 1, th)
     return qs
 
 
@@ -296,6 +298,12 @@ def mutants(ctx):
         # dispatch: the local-VP test is inverted: the submitter keeps / receives the tasks of the OTHER virtual process
         Mutant("schedule_vp_wrong_vp_kept", "parsec/scheduling.c", "        if( vp == submission_es->virtual_process->vp_id ) {\n            if( NULL == submission_es->next_task ) {",
                "        if( vp != submission_es->virtual_process->vp_id ) {\n            if( NULL == submission_es->next_task ) {", queries=["schedule_vp"]),
+        # llp, CAS-128 lifo_chain_sorted: after a FAILED fast-path CAS the ring is not closed again; a one-task ring then drags the
+        # old head along as "rest of the ring" in lifo_merge_ring / ring_chop (needs a concurrent pop+push: Engine S query)
+        Mutant("llp_fastpath_ring_not_restored", UNIT["llp"],
+               "            /* restore the ring */\n            ring->list_prev->list_next = ring;\n        } else if (parsec_update_counted_pointer(&lifo->lifo_head, old_head, NULL)) {",
+               "            /* restore the ring */\n        } else if (parsec_update_counted_pointer(&lifo->lifo_head, old_head, NULL)) {",
+               queries=["llp_conc_fastpath_cas_fails_push_r1"]),
         Mutant("rnd_chains_singleton", UNIT["rnd"], "new_context = (parsec_task_t*)parsec_list_nolock_unchain(&tmp);",
                "new_context = (parsec_task_t*)parsec_list_nolock_unchain(&tmp); parsec_list_item_singleton(&new_context->super);", queries=["rnd_e2_21_s011"]),
     ]
